@@ -260,6 +260,8 @@ def run(params, rec, which):
     for spec in ic.SPECS:
         walk = (params["shard"], params["nshards"], params.get("walk_rounds", 1), params.get("walk_stride", 1))
         for data, origin in ic.stream(spec, rng, params["seed"] * 64 + params["shard"], n, walk):
+            if not ic.selected(spec):
+                continue
             instr, err = ic.decode(spec, data, 0)
             if instr is None:
                 rec.count("%s:undecodable" % spec.name)
